@@ -68,7 +68,13 @@ Find(t, s) ==
            [] t.k = "match" -> FindIn(<<t.e>> \o [i \in 1..Len(t.cases) |-> t.cases[i].e], 1, s)
            [] OTHER -> Bad
 
-Exotic(ts) == \E i \in 1..Len(ts) : ts[i].k = "fstr" \/ (ts[i].k = "int" /\ Len(ts[i].v.m) >= 5 /\ ts[i].v.m[5] >= 8)
+Exotic(ts) == \E i \in 1..Len(ts) : (ts[i].k = "fstr" /\ \E j \in 1..Len(ts[i].v) : "xbad" \in DOMAIN ts[i].v[j]) \/ (ts[i].k = "int" /\ Len(ts[i].v.m) >= 5 /\ ts[i].v.m[5] >= 8)
+
+(* an embedded text of an f-string that starts with a well-formed expression and goes on (the recorded finding of C02) *)
+TrailingInSegment(ts) ==
+    \E i \in 1..Len(ts) : ts[i].k = "fstr" /\ \E j \in 1..Len(ts[i].v) :
+        /\ "xt" \in DOMAIN ts[i].v[j]
+        /\ LET q == PExpr(ts[i].v[j].xt, 1) IN ~IsBad(q) /\ q.i <= Len(ts[i].v[j].xt)
 
 (* the first failing check of a record, or "ok" *)
 Verdict(r) ==
@@ -85,6 +91,7 @@ Verdict(r) ==
     ELSE IF \E i \in 1..Len(ts) : ~(PosLe(ts[i].sp[1], ts[i].sp[2], ts[i].sp[3], ts[i].sp[4]) /\ <<ts[i].sp[1], ts[i].sp[2]>> # <<ts[i].sp[3], ts[i].sp[4]>>) THEN "token-span-empty-or-reversed"
     ELSE IF \E i \in 1..(Len(ts) - 1) : ~PosLe(ts[i].sp[3], ts[i].sp[4], ts[i + 1].sp[1], ts[i + 1].sp[2]) THEN "token-spans-overlap"
     ELSE IF Has(r, "relex") /\ (\E i \in 1..Len(r.relex) : ~(Len(r.relex[i]) = 1 /\ r.relex[i][1].k = ts[i].k /\ r.relex[i][1].v = ts[i].v)) THEN "token-does-not-relex"
+    ELSE IF lexed /\ ~Exotic(ts) /\ p.k = "SYNTAX" /\ r.compile.o = "ok" /\ TrailingInSegment(ts) THEN "fstring-segment-with-trailing-tokens-compiled"
     ELSE IF lexed /\ ~Exotic(ts) /\ p.k = "SYNTAX" /\ r.compile.o = "ok" THEN "grammar-rejects-but-compiled"
     ELSE IF lexed /\ ~Exotic(ts) /\ p.k # "SYNTAX" /\ r.compile.o # "ok" THEN "grammar-accepts-but-syntax-error"
     ELSE IF Has(r, "must") /\ r.must = "ok" /\ r.compile.o # "ok" THEN "well-formed-source-rejected"
